@@ -760,8 +760,11 @@ class App:
             s_scale = scaleE * strain + 1e-300
             # measured baseline: stress 3e-13 (median) .. 4e-8 (soft materials, tiny strains) relative; tangent <= 1e-8;
             # injected derivative errors are >= 1e-4 (stress) / 1e-2 (tangent)
-            tol1 = 1e-7 * s_scale + 200 * core.EPS * wmag / hstep
-            tol2 = 1e-5 * scaleE + 2000 * core.EPS * wmag / hstep**2
+            # (four unchanged-tree soaks at other seeds kept producing isolated 1e-6-relative tangent / 1e-7-relative
+            # stress discrepancies from the finite-difference side; every injected derivative error seen so far is
+            # >= 2e-4 (stress) / 1e-2 (tangent) relative, so the tolerances sit two decades below those)
+            tol1 = 1e-6 * s_scale + 1e3 * core.EPS * wmag / hstep
+            tol2 = 1e-4 * scaleE + 1e4 * core.EPS * wmag / hstep**2
             sig = {'model': self.mat['model'], 'kin': self.mat.get('kinematics'), 'rate': 'rate sensitivity' in self.mat}
             # Is the argument of a symmetric tensor function (log / power of C or Ce) at this point a matrix with
             # exactly repeated eigenvalues?  (known finding F-C10: the hand-written JVP rules select f'(lambda)
